@@ -17,4 +17,4 @@ for c in "$@"; do
   ./check $c quick > /tmp/seed_$c.out 2>&1; echo "check $c exit=$? $(grep -c '^VIOLATION' /tmp/seed_$c.out) violations"; grep -A1 "signature=" /tmp/seed_$c.out | cut -c1-260 | head -8
 done
 git -C /repo checkout -- .
-git -C /verif clean -fdq replays
+git -C /verif clean -fdq replays   # NOTE: removes untracked replay files: commit wanted ones first
